@@ -144,7 +144,7 @@ def run(ctx):
             gen("GenNamesysSim.cfg", simulate=6 if q else 80, depth=1000),
             gen("GenNamesysSim2.cfg", simulate=3 if q else 40, depth=1000),
             gen("GenNamesysConcCore.cfg", workers=2),
-            gen("GenNamesysConcSim.cfg", simulate=2 if q else 40, depth=800),
+            gen("GenNamesysConcSim.cfg", simulate=2 if q else 20, depth=800),
             m_conc, m_nolock] + ([] if q else [gen("GenNamesysConc.cfg", workers=4)])
     import time as _t
 
@@ -165,7 +165,7 @@ def run(ctx):
     # concurrent family: the exhaustive core (quick: a seeded half of it), simulated ones, thorough: sample of the 2-name BFS
     if q:
         ccore = ctx.rng.sample(ccore, min(len(ccore), 100))
-    cbig = ctx.rng.sample(cbig, min(len(cbig), 3000))
+    cbig = ctx.rng.sample(cbig, min(len(cbig), 1500))
     conc = ccore + csim + cbig
     fams = [("core", d4), ("pub", pub), ("chain", chn), ("sim", sim), ("sim2", sim2), ("conc", conc)]
     if any(not f for _, f in fams):
